@@ -88,3 +88,25 @@ def interior_points(rng, n, lo=1e-4):
     X = np.vstack([a, b, c])
     rng.shuffle(X, axis=0)
     return X
+
+
+def reused_model(family, theta, rng):
+    """A model instance with a past: parameterised at another theta, evaluated through every public
+    function (so that anything cached lazily is filled), then re-parameterised by assignment - the way the
+    library itself re-uses instances (vine edges, select_copula candidates)."""
+    th0 = random_theta(family, rng)
+    m = make_model(family, th0)
+    X = interior_points(rng, 6)
+    for fn in (m.cumulative_distribution, m.probability_density, m.partial_derivative, m.log_probability_density):
+        try:
+            fn(X)
+        except Exception:  # noqa: BLE001
+            pass
+    try:
+        m.percent_point(X[:, 0], X[:, 1])
+        m.generator(X[:, 0])
+    except Exception:  # noqa: BLE001
+        pass
+    m.theta = float(theta)
+    m.tau = float(arch.Arch(family, theta).tau())
+    return m, th0
